@@ -408,11 +408,114 @@ def lve_spec(draw):
     return spec
 
 
-SUBS = {"construct": case_construct, "universe": case_universe, "lazy_vs_eager": case_lazy_vs_eager}
-STRATS = {"construct": construct_spec, "universe": universe_spec, "lazy_vs_eager": lve_spec}
+# ---- settings pushed from the top vs nodes that join later ---------------------------------------------
+@st.composite
+def settings_spec(draw):
+    """a tree assembled in generated order: settings pushed from the root (integer positions on/off, a commission function) before or
+    after sub-strategies are attached (at construction, or later with parent=, before or after setup), securities named by strings
+    and created on first use.  In the end every node trades on the root's terms."""
+    steps = []
+    n_push = draw(st.integers(1, 3))
+    for _ in range(n_push):
+        steps.append(["push_int", draw(st.booleans())] if draw(st.integers(0, 2)) else ["push_fee"])
+    steps.append(["setup"])
+    for nm, par in (("s1", "root"), ("s2", draw(st.sampled_from(["root", "root>s1"])))):
+        if nm == "s2" and draw(st.booleans()):
+            continue
+        kids = [draw(st.sampled_from([t, t, {"sec": t}, {"sec": t, "lazy": True}])) for t in draw(st.lists(st.sampled_from(["a", "b", "c"]), min_size=1, max_size=3, unique=True))]
+        steps.append(["attach", nm, par, kids, draw(st.sampled_from(["Strategy", "StrategyBase"]))])
+    order = draw(st.permutations(list(range(len(steps)))))
+    steps = [steps[i] for i in order]
+    # a sub-strategy can only be attached under a parent that exists
+    names = []
+    fixed = []
+    pending = []
+    for stp in steps:
+        if stp[0] == "attach" and stp[2] == "root>s1" and "s1" not in names:
+            pending.append(stp)
+            continue
+        fixed.append(stp)
+        if stp[0] == "attach":
+            names.append(stp[1])
+            fixed += [q for q in pending if q[2] == "root>" + stp[1]]
+            pending = [q for q in pending if q[2] != "root>" + stp[1]]
+    return {"steps": fixed, "amount": draw(st.sampled_from([1000.0, 12345.67, 250.5])), "root_kids": draw(st.sampled_from([None, ["c"], ["a", "b", "c"]]))}
+
+
+def case_settings(ctx, spec):
+    bt = ctx.bt
+    import pandas as pd
+
+    dts = pd.to_datetime(["2021-03-01", "2021-03-02", "2021-03-03"])
+    data = pd.DataFrame({"a": [17.25, 17.5, 17.0], "b": [101.3, 100.9, 102.2], "c": [9.99, 10.01, 10.4]}, index=dts)
+    fee = interp.Fee({"kind": "fixed", "f": 1.5})
+    root = bt.core.Strategy("root", [], children=spec["root_kids"])
+    is_setup = False
+    nodes = {"root": root}
+    pushed_int, pushed_fee = True, False
+    labs = set()
+    for stp in spec["steps"]:
+        if stp[0] == "push_int":
+            root.use_integer_positions(stp[1])
+            pushed_int = stp[1]
+        elif stp[0] == "push_fee":
+            root.set_commissions(fee)
+            pushed_fee = True
+        elif stp[0] == "setup":
+            root.setup(data)
+            is_setup = True
+        else:
+            _, nm, par, kids, cls = stp
+            parent = nodes[par]
+            built = [k if isinstance(k, str) else bt.core.Security(k["sec"], **({"lazy_add": True} if k.get("lazy") else {})) for k in kids]
+            if cls == "Strategy":
+                new = bt.core.Strategy(nm, [], children=built, parent=parent)
+            else:
+                new = bt.core.StrategyBase(nm, children=built, parent=parent)
+            new = parent.children[nm]
+            nodes[par + ">" + nm] = new
+            if is_setup:
+                new.setup_from_parent()
+                labs.add("attached_after_setup")
+            if pushed_fee or pushed_int is False:
+                labs.add("attached_after_push")
+    if not is_setup:
+        root.setup(data)
+    root.adjust(1e6)
+    root.update(dts[0])
+    # fund every sub-strategy and let each of them trade every ticker it may trade (creating string-named securities on first use)
+    for path in sorted(nodes, key=len):
+        nd = nodes[path]
+        if nd is not root:
+            nd.parent.allocate(50000.0, child=nd.name)
+    root.update(dts[0])
+    for path in sorted(nodes, key=len):
+        nd = nodes[path]
+        for t in list(nd._universe_tickers) or (["a"] if nd is root and spec["root_kids"] is None else []):
+            if t in data.columns:
+                nd.allocate(spec["amount"], child=t)
+    root.update(dts[0])
+    for m in walk_live(root):
+        if m.integer_positions != pushed_int:
+            raise Violation("integer_positions=%s was pushed from the root but %s (%s) has %s; steps %s" % (pushed_int, m.full_name, type(m).__name__, m.integer_positions, spec["steps"]), signature="c19:settings-integer")
+        if isinstance(m, bt.core.StrategyBase) and pushed_fee and m.commission_fn is not fee:
+            raise Violation("the commission function pushed from the root did not reach %s; steps %s" % (m.full_name, spec["steps"]), signature="c19:settings-commission")
+        if isinstance(m, bt.core.SecurityBase) and m.position != 0:
+            whole = float(m.position) == float(int(m.position))
+            if pushed_int and not whole:
+                raise Violation("%s holds %r units although whole units were asked for from the root" % (m.full_name, m.position), signature="c19:settings-quantity")
+            if not pushed_int and whole and abs(m.position * m.price - spec["amount"]) > (1.5 if pushed_fee else 0.0) + 1e-6:
+                raise Violation("%s holds the whole quantity %r for an amount of %r at price %r although fractional positions were asked for from the root; steps %s" % (m.full_name, m.position, spec["amount"], m.price, spec["steps"]), signature="c19:settings-quantity")
+    check_live_structure(bt, root, "settings")
+    return {"nontrivial": "attached_after_push" in labs, "labels": sorted(labs) + ["int=%s" % pushed_int] + (["fee"] if pushed_fee else [])}
+
+
+SUBS = {"construct": case_construct, "universe": case_universe, "lazy_vs_eager": case_lazy_vs_eager, "settings": case_settings}
+STRATS = {"construct": construct_spec, "universe": universe_spec, "lazy_vs_eager": lve_spec, "settings": settings_spec}
 
 
 def shard(ctx):
     run_sub(ctx, "construct", construct_spec(), lambda s: case_construct(ctx, s), ctx.n(3000, 40000))
     run_sub(ctx, "universe", universe_spec(), lambda s: case_universe(ctx, s), ctx.n(800, 10000))
     run_sub(ctx, "lazy_vs_eager", lve_spec(), lambda s: case_lazy_vs_eager(ctx, s), ctx.n(640, 8000))
+    run_sub(ctx, "settings", settings_spec(), lambda s: case_settings(ctx, s), ctx.n(1200, 15000))
